@@ -42,8 +42,8 @@ Proof. reflexivity. Qed.
    translator re-reads from unpack_package: without the skip an archive carrying
    `<prefix>/.cargo-ok = "ok"` refutes the statement (the original defect, now fixed): *)
 Example C19_marker_entry_would_refute :
-  let ar := [ {| en_absolute := false; en_path := [CNormal 9; CNormal MARKER]; en_content := OK |};
-              {| en_absolute := false; en_path := [CNormal 9; CNormal 5]; en_content := 7 |} ] in
+  let ar := [ {| en_absolute := false; en_path := [CNormal 9; CNormal MARKER]; en_kind := EFile; en_content := OK |};
+              {| en_absolute := false; en_path := [CNormal 9; CNormal 5]; en_kind := EFile; en_content := 7 |} ] in
   fetch_is_ok 9 (unpack 9 ar (Some 1%nat) []) = false /\ fs_get (unpack 9 ar None []) [9; 5] = Some 7.
 Proof. vm_compute. auto. Qed.
 
